@@ -130,6 +130,18 @@ CHECKS = {
         note="13 step variants x sizes {0, 1/2, 1, 2} x 4 function kinds x 3 starting points x 3 preceding-step options. "
              "Concrete side limited to members with closed-form steps (quadratics, |x|, intervals, quadratic mirror maps).",
     ),
+    "C10": dict(
+        category="exploration",
+        technique="bounded exhaustive run of every shipped example with a closed form over a parameter grid of its documented "
+                  "range, plus differential comparison of each run with equivalent reformulations and with the other back-end",
+        text="72 example entries x grids (~420 points in the quick tier: several values of every parameter, several iteration "
+             "counts, both ends of the documented step-size ranges) are executed; tight rates must be met to 1e-3, upper / lower "
+             "bounds respected. Each run of a sub-family is repeated under six equivalent formulations applied just before the "
+             "solve (redundant LMI, one-block partition, duplicated metric, inequalities restated as function-level LMIs, "
+             "samples recorded in rotated order, MOSEK stand-in back-end): the value must not move.",
+        note="Finite grid of continuous ranges; ranges are those the example docstrings state (mc/examples_table.py). Comparisons "
+             "between formulations are made only when the solver reports `optimal` for both.",
+    ),
     "C11": dict(
         category="model_checking",
         technique="every grammar model x {none, trace, logdet1} formulated through both wrappers; row-by-row comparison of "
